@@ -225,6 +225,11 @@ theorem C08_inPlace_breaks (P : Policy) (tbl : Table) (h1 : tbl.writesInPlace "A
     rw [s1, s2]
     simp [content, Heap.read, Heap.cells]
 
+/-- the table the extractor produces for that mutant meets the hypotheses of `C08_inPlace_breaks` -/
+def tblSortInPlace : Table := ("Array.Sort/w0", .inPlace) :: ("Array.Sort/r0", .resliceReceiver) :: sliceIdioms
+example : tblSortInPlace.writesInPlace "Array.Sort" = true ∧ (tblSortInPlace.find "Array.Sort/r0").cls = .reslice := by
+  decide
+
 /-- the three unsafe shapes are refuted by the side condition -/
 example : ¬ IdiomsSafe (("Hash.Delete/r0", .resliceThenAppend) :: sliceIdioms) := by decide
 example : ¬ IdiomsSafe (("Array.Sort/w0", .inPlace) :: ("Array.Sort/r0", .resliceReceiver) :: sliceIdioms) := by decide
